@@ -15,11 +15,11 @@ term = KaniUnit("c13_term", CORE, modules=[dict(file=TERM, src="c13_termination.
                 harnesses=[H("c13_ksp_terminate_search", "complete", "KspTerminationCriteria::terminate_search over all k, all solution sizes, all variants (Factor: factor <= 2^16, size <= 2^32 so the product fits): fires only at solution_size == k; Exact iff", timeout=120)])
 yen = KaniUnit("c13_yen", CORE,
                exprs=[dict(file=YEN, name="c13_yen_spur_range", params="len: usize", ret="std::ops::Range<usize>",
-                           anchor=r"for spur_idx in (?P<expr>0\.\.prev_accepted_path\.len\(\) - 2) \{",
+                           anchor=r"for spur_idx in (?P<expr>0\.\.prev_accepted_path\.len\(\)[^{]*?) \{",
                            subst=[("prev_accepted_path.len()", "len")])],
                modules=[dict(file=CORE + "/src/algorithm/search/search_instance.rs", src="world.rs"), dict(file=YEN, src="c13_yen.rs")],
-               harnesses=[H("c13_yen_spur_range_no_underflow", "complete", "yens_algorithm::run: `0..prev_accepted_path.len() - 2` does not underflow for any stored route (len >= 1)", timeout=120)])
-yen.native_witnesses = ['c13_wit_yen_one_edge_route']
+               harnesses=[H("c13_yen_spur_range_no_underflow", "complete", "yens_algorithm::run: the spur range `0..prev_accepted_path.len()<..>` neither underflows nor leaves the previous path, for any stored route (len >= 1)", timeout=120)])
+yen.native_witnesses = ['c13_wit_yen_one_edge_route', 'c13_wit_yen_two_edge_route_returns']
 sv = VerusUnit("c13_single_via", "c13_single_via", rlimit=60)
 UNITS = [sv, sim, term, yen]
 EXPLANATION = ("single-via driver UNDER CONTRACT (unit c13_single_via, Verus, verbatim `run`, any graph / k / criteria / similarity function): at most k routes; with k >= 1 at least one and the first is the "
@@ -27,6 +27,6 @@ EXPLANATION = ("single-via driver UNDER CONTRACT (unit c13_single_via, Verus, ve
                "reverse tree's route re-traversed in travel direction (reorient_reverse_route: edge order reversed, each edge traversed after its true predecessor from the state that predecessor left, verified); "
                "no two routes have the same edge sequence (test_id_similarity verified) and no later route is too similar to an earlier one under the configured function; with well-formed trees (TW of unit al_astar) "
                "every alternative is a contiguous source-to-target walk (lemma); the driver's loops TERMINATE (decreases: queue size), given that its callees do. "
-               "Kernels by Kani: the similarity decision and the stop criterion complete over their domains; Yen: expression-level call-site obligation (known finding)")
+               "Kernels by Kani: the similarity decision and the stop criterion complete over their domains; Yen: expression-level call-site obligation on the spur range + witnesses for one- and two-edge routes (two defects found and fixed)")
 NOT_DECIDED = ("that the first route is least-cost (C02 is not optimality); cos_similarity / rank_similarity (HashMap + boxed closures: the verdict is an uninterpreted deterministic function here); "
                "SearchAlgorithm::run_vertex_oriented (assumed to hand through run_a_star's trees); Yen's driver beyond the call-site obligation and the witness; termination of the underlying searches")
